@@ -400,6 +400,11 @@ func (c *fsCache) Set(key string, entry []byte) error {
 	}
 }
 
+// tempPrefix starts the base name of the temporary files that set writes before
+// renaming them into place. '.' is not part of the base64url alphabet, so a
+// temporary file is never mistaken for the file of a key.
+const tempPrefix = ".tmp-"
+
 func (c *fsCache) set(key string, entry []byte) error {
 	if c.enc != nil {
 		var err error
@@ -409,19 +414,39 @@ func (c *fsCache) set(key string, entry []byte) error {
 		}
 	}
 	name := c.fn.FileName(key)
-	if err := c.root.MkdirAll(filepath.Dir(name), 0o755); err != nil {
+	dir := filepath.Dir(name)
+	if err := c.root.MkdirAll(dir, 0o755); err != nil {
 		return err
 	}
-	f, err := c.root.Create(name)
+	// Write a temporary file in the destination directory and rename it over
+	// the destination: readers, and a crash or failed write at any point, see
+	// either the previous value or the complete new one, never a partial file.
+	tmp := filepath.Join(dir, tempPrefix+rand.Text())
+	f, err := c.root.OpenFile(tmp, os.O_WRONLY|os.O_CREATE|os.O_EXCL, 0o666)
 	if err != nil {
 		return err
 	}
-	defer f.Close()
-	_, err = f.Write(entry)
-	if err != nil {
+	if err := writeSyncClose(f, entry); err != nil {
+		_ = c.root.Remove(tmp)
 		return err
 	}
-	return f.Sync()
+	if err := c.root.Rename(tmp, name); err != nil {
+		_ = c.root.Remove(tmp)
+		return err
+	}
+	return nil
+}
+
+func writeSyncClose(f *os.File, data []byte) error {
+	if _, err := f.Write(data); err != nil {
+		_ = f.Close()
+		return err
+	}
+	if err := f.Sync(); err != nil {
+		_ = f.Close()
+		return err
+	}
+	return f.Close()
 }
 
 func (c *fsCache) Delete(key string) error {
@@ -491,7 +516,7 @@ func (c *fsCache) keys(prefix string) ([]string, error) {
 		if err != nil {
 			return err
 		}
-		if d.IsDir() {
+		if d.IsDir() || strings.HasPrefix(d.Name(), tempPrefix) {
 			return nil
 		}
 		key, err := c.fnk.KeyFromFileName(
